@@ -12,8 +12,10 @@
 EXTENDS Integers, Sequences, FiniteSets, TLC, TLCExt, Json, IOUtils
 Log == ndJsonDeserialize(IOEnv.TRACE_FILE)
 Shape == Log[1]
-VARIABLES l, seen, owner, nbad
-vars == <<l, seen, owner, nbad>>
+VARIABLES l, seen, owner, nbad,
+          inited,   \* tables whose isotopes have been created by the mass loader
+          extra     \* isotopes created on demand afterwards (add_isotope), as <<table, z, a>>
+vars == <<l, seen, owner, nbad, inited, extra>>
 
 ZStr(z) == ToString(z)
 HasZ(z) == ZStr(z) \in DOMAIN Shape.els
@@ -24,7 +26,11 @@ Names == DOMAIN Shape.namez
 Raise == [raise |-> TRUE]
 Key(T, z, a, q) == [raise |-> FALSE, T |-> T, z |-> z, a |-> a, q |-> q]
 KnownEl(z) == z \in ToSet(Shape.allz)
-ValidIso(z, a) == HasZ(z) /\ a \in ToSet(El(z).isos)
+ValidIso(T, z, a) == /\ KnownEl(z)
+                     /\ \/ T \in inited /\ HasZ(z) /\ a \in ToSet(El(z).isos)
+                        \/ T \notin inited /\ z = 1 /\ a \in {2, 3}             \* a bare table only has D and T
+                        \/ <<T, z, a>> \in extra
+IsosOf(T, z) == {a \in 1..400 : ValidIso(T, z, a)}
 ValidIon(z, q) == HasZ(z) /\ q \in ToSet(El(z).ions)
 
 BySymbol(T, s) == IF s = "D" THEN Key(T, 1, 2, 0) ELSE IF s = "T" THEN Key(T, 1, 3, 0)
@@ -40,10 +46,10 @@ Expected(e) ==
        [] e.r = "name" -> ByName(T, i.s)
        [] e.r = "mod"  -> IF BySymbol(T, i.s) # Raise THEN BySymbol(T, i.s) ELSE ByName(T, i.s)
        [] e.r = "iso"  -> IF i.form = "sym" THEN BySymbol(T, i.sym)
-                          ELSE IF i.form = "a-sym" /\ i.sym \in Syms /\ ValidIso(Shape.symz[i.sym], i.a)
+                          ELSE IF i.form = "a-sym" /\ i.sym \in Syms /\ ValidIso(T, Shape.symz[i.sym], i.a)
                                THEN Key(T, Shape.symz[i.sym], i.a, 0) ELSE Raise
-       [] e.r = "elA"  -> IF ValidIso(i.z, i.a) THEN Key(T, i.z, i.a, 0) ELSE Raise
-       [] e.r = "ion"  -> IF (i.a = 0 \/ ValidIso(i.z, i.a)) /\ ValidIon(i.z, i.q) THEN Key(T, i.z, i.a, i.q) ELSE Raise
+       [] e.r = "elA"  -> IF ValidIso(T, i.z, i.a) THEN Key(T, i.z, i.a, 0) ELSE Raise
+       [] e.r = "ion"  -> IF (i.a = 0 \/ ValidIso(T, i.z, i.a)) /\ ValidIon(i.z, i.q) THEN Key(T, i.z, i.a, i.q) ELSE Raise
        [] e.r \in {"again", "pickle", "pickle2", "deepcopy"} -> Key(T, i.z, i.a, i.q)
        [] e.r = "chg"  -> Key(i.to, i.z, i.a, i.q)
 
@@ -66,12 +72,12 @@ Sorted(s) == \A i \in 1..(Len(s) - 1) : s[i] < s[i + 1]
 IterClause(e) ==
   IF e.ev = "iter" THEN (IF e.res = Shape.allz THEN "ok" ELSE "IterationSortedExactlyOnce")
   ELSE IF e.ev = "iterIso"
-       THEN (IF HasZ(e.z) /\ e.res = El(e.z).isos /\ e.prop = El(e.z).isos /\ Sorted(e.res) THEN "ok"
+       THEN (IF ToSet(e.res) = IsosOf(e.T, e.z) /\ Len(e.res) = Cardinality(IsosOf(e.T, e.z)) /\ e.prop = e.res /\ Sorted(e.res) THEN "ok"
              ELSE "IsotopeIterationSortedExactlyOnce")
   ELSE IF e.ev \in {"unreg", "dup"} THEN (IF "exc" \in DOMAIN e.res THEN "ok" ELSE "MustRaise")
   ELSE "ok"
 
-Init == l = 2 /\ seen = <<>> /\ owner = <<>> /\ nbad = 0
+Init == l = 2 /\ seen = <<>> /\ owner = <<>> /\ nbad = 0 /\ inited = {"public", "T1"} /\ extra = {}
 Step ==
   /\ l <= Len(Log)
   /\ LET e == Log[l]
@@ -82,6 +88,8 @@ Step ==
            THEN /\ seen' = (Expected(e) :> e.res.id) @@ seen
                 /\ owner' = (e.res.id :> Expected(e)) @@ owner
            ELSE UNCHANGED <<seen, owner>>
+  /\ inited' = IF Log[l].ev = "tabinit" THEN inited \cup {Log[l].T} ELSE inited
+  /\ extra' = IF Log[l].ev = "addiso" THEN extra \cup {<<Log[l].T, Log[l].z, Log[l].a>>} ELSE extra
   /\ l' = l + 1
 TraceSpec == Init /\ [][Step]_vars
 Done == /\ TLCGet("stats").diameter = Len(Log)
